@@ -177,25 +177,69 @@ impl<'a> InputGen<'a> {
     // ------------------------------------------------------------ mistakes
 
     /// Inject one mistake somewhere in the tree (any depth). Returns the kind injected, if any.
-    pub fn inject(&mut self, rng: &mut Rng, items: &mut Vec<Item>, r: &Recv, depth: usize) -> Option<&'static str> {
+    pub fn inject(&mut self, rng: &mut Rng, items: &mut Vec<Item>, r: &'a Recv, depth: usize) -> Option<&'static str> {
+        self.inject_ctx(rng, items, Ctx::Recv(r), depth)
+    }
+
+    fn inject_ctx(&mut self, rng: &mut Rng, items: &mut Vec<Item>, ctx: Ctx<'a>, depth: usize) -> Option<&'static str> {
         // descend into a nested list with some probability
-        let nested: Vec<usize> = items.iter().enumerate().filter(|(_, i)| matches!(&i.kind, Kind::List(l) if !l.is_empty())).map(|(k, _)| k).collect();
+        let nested: Vec<usize> = items.iter().enumerate().filter(|(_, i)| matches!(&i.kind, Kind::List(_))).map(|(k, _)| k).collect();
         if !nested.is_empty() && depth < 4 && rng.chance(2, 5) {
             let k = *rng.pick(&nested);
-            let child_recv = self.child_recv(r, &items[k]);
-            if let (Kind::List(inner), Some(cr)) = (&mut items[k].kind, child_recv) {
-                let cr = cr.clone();
-                return self.inject(rng, inner, &cr, depth + 1);
+            let child = self.child_ctx(&ctx, &items[k]);
+            if let (Kind::List(inner), Some(cc)) = (&mut items[k].kind, child) {
+                return self.inject_ctx(rng, inner, cc, depth + 1);
             }
         }
+        if let Ctx::Map = ctx {
+            return match rng.below(4) {
+                0 => {
+                    let it = literal(&mut self.ids, Lit::Str { value: "stray".into(), raw: false });
+                    let pos = rng.below(items.len() + 1);
+                    items.insert(pos, it);
+                    Some("map-literal")
+                }
+                1 if !items.is_empty() => {
+                    let k = rng.below(items.len());
+                    let mut dup = items[k].clone();
+                    self.renumber(&mut dup);
+                    items.push(dup);
+                    Some("map-repeated-key")
+                }
+                _ if !items.is_empty() => {
+                    let k = rng.below(items.len());
+                    if matches!(items[k].kind, Kind::Literal(_)) {
+                        return None;
+                    }
+                    items[k].kind = match rng.below(3) {
+                        0 => Kind::Nv(Lit::ByteStr),
+                        1 => Kind::Nv(Lit::Expr("a::b".into())),
+                        _ => {
+                            let a = word(&mut self.ids, "a");
+                            Kind::List(vec![a])
+                        }
+                    };
+                    Some("map-bad-value")
+                }
+                _ => None,
+            };
+        }
+        let (r, names): (&Recv, Vec<String>) = match &ctx {
+            Ctx::Recv(r) => (
+                r,
+                match &r.shape {
+                    Shape::Struct(fs) => fs.iter().map(|f| field_name(r, f)).collect(),
+                    Shape::Enum(vs) => vs.iter().map(|v| variant_name(r, v)).collect(),
+                },
+            ),
+            Ctx::Fields(r, fs) => (r, fs.iter().map(|f| field_name(r, f)).collect()),
+            Ctx::Map => unreachable!(),
+        };
+        let _ = r;
         let kind = rng.below(7);
         match kind {
             0 => {
                 // unknown name: a near miss of a valid name, or something unrelated
-                let names: Vec<String> = match &r.shape {
-                    Shape::Struct(fs) => fs.iter().map(|f| field_name(r, f)).collect(),
-                    Shape::Enum(vs) => vs.iter().map(|v| variant_name(r, v)).collect(),
-                };
                 let base = if !names.is_empty() && rng.chance(3, 4) { rng.pick(&names).clone() } else { "zzz".to_string() };
                 let name = near_miss(rng, &base);
                 if !addressable(&name) {
@@ -293,39 +337,70 @@ impl<'a> InputGen<'a> {
         }
     }
 
-    /// the receiver that interprets the contents of `it` (a list item) inside receiver `r`
-    fn child_recv(&self, r: &Recv, it: &Item) -> Option<&'a Recv> {
+    /// what interprets the contents of the list item `it` inside `ctx`
+    fn child_ctx(&self, ctx: &Ctx<'a>, it: &Item) -> Option<Ctx<'a>> {
         let name = path_string(&it.name);
-        let find_in = |fs: &[Field]| -> Option<&'a Recv> {
+        let of_type = |t: &'a Ty| -> Option<Ctx<'a>> {
+            let mut t = t;
+            loop {
+                match t {
+                    Ty::Opt(i) => t = i,
+                    Ty::Map(_) => return Some(Ctx::Map),
+                    Ty::Recv(id) | Ty::BoxRecv(id) => return Some(Ctx::Recv(&self.recvs[*id])),
+                    _ => return None,
+                }
+            }
+        };
+        let in_fields = |r: &'a Recv, fs: &'a [Field]| -> Option<Ctx<'a>> {
             for f in fs {
                 if !f.skip && !f.flatten && field_name(r, f) == name {
-                    let mut t = &f.ty;
-                    loop {
-                        match t {
-                            Ty::Opt(i) => t = i,
-                            Ty::Recv(id) | Ty::BoxRecv(id) => return Some(&self.recvs[*id]),
-                            _ => return None,
+                    return of_type(&f.ty);
+                }
+            }
+            // an unclaimed name goes to the flatten member
+            for f in fs {
+                if f.flatten {
+                    if let Ty::Recv(id) | Ty::BoxRecv(id) = &f.ty {
+                        let inner: &'a Recv = &self.recvs[*id];
+                        if let Shape::Struct(ifs) = &inner.shape {
+                            for g in ifs {
+                                if !g.skip && !g.flatten && field_name(inner, g) == name {
+                                    return of_type(&g.ty);
+                                }
+                            }
                         }
                     }
                 }
             }
             None
         };
-        match &r.shape {
-            Shape::Struct(fs) => find_in(fs),
-            Shape::Enum(vs) => {
-                for v in vs {
-                    if variant_name(r, v) == name {
-                        return match &v.body {
-                            VBody::Newtype(Ty::Recv(id)) | VBody::Newtype(Ty::BoxRecv(id)) => Some(&self.recvs[*id]),
-                            _ => None,
-                        };
+        match ctx {
+            Ctx::Map => None,
+            Ctx::Fields(r, fs) => in_fields(r, fs),
+            Ctx::Recv(r) => match &r.shape {
+                Shape::Struct(fs) => in_fields(r, fs),
+                Shape::Enum(vs) => {
+                    for v in vs {
+                        if variant_name(r, v) == name {
+                            return match &v.body {
+                                VBody::Newtype(t) => of_type(t),
+                                VBody::Struct(fs) => Some(Ctx::Fields(r, fs)),
+                                VBody::Unit => None,
+                            };
+                        }
                     }
+                    None
                 }
-                None
-            }
+            },
         }
     }
+}
+
+#[derive(Clone)]
+pub enum Ctx<'a> {
+    Recv(&'a Recv),
+    Fields(&'a Recv, &'a [Field]),
+    Map,
 }
 
 /// a name at edit distance 0..2 of `base`
@@ -385,7 +460,7 @@ pub struct Rendered {
     pub attrs: Vec<R>,
 }
 
-pub const FOREIGN: [&str; 9] = ["/// a doc comment", "#[doc = \"text\"]", "#[cfg(test)]", "#[derive(Clone)]", "#[allow(dead_code)]", "#[zzz(!!! 1 2)]", "#[other(skip, rename = \"x\")]", "#[other]", "#[serde::rename = \"q\"]"];
+pub const FOREIGN: [&str; 11] = ["#[attr_a::sub(skip)]", "#[allow(unused)]", "/// a doc comment", "#[doc = \"text\"]", "#[cfg(test)]", "#[derive(Clone)]", "#[allow(dead_code)]", "#[zzz(!!! 1 2)]", "#[other(skip, rename = \"x\")]", "#[other]", "#[serde::rename = \"q\"]"];
 
 pub fn render_attrs(attrs: &[Attr], out: &mut String, ranges: &mut Ranges, spacing: u8) -> Vec<R> {
     let mut rs = vec![];
